@@ -407,9 +407,11 @@ static int STRUCTURE##_set_output(struct upipe *upipe, struct upipe *output)\
             upipe_unregister_request(s->OUTPUT, urequest);                  \
         }                                                                   \
     }                                                                       \
-    upipe_release(s->OUTPUT);                                               \
-                                                                            \
+    /* take the new reference first: the new output may be the current one,\
+     * of which this pipe may hold the only reference */                    \
+    struct upipe *old_output = s->OUTPUT;                                   \
     s->OUTPUT = upipe_use(output);                                          \
+    upipe_release(old_output);                                              \
     s->OUTPUT_STATE = UPIPE_HELPER_OUTPUT_NONE;                             \
     if (unlikely(s->OUTPUT == NULL))                                        \
         return UBASE_ERR_NONE;                                              \
